@@ -290,6 +290,16 @@ func init() {
 		g.quiesce()
 		return mkBool(true)
 	})
+	V("PendingCallbackTimers", func(g *G, a []Value, pos token.Pos) Value {
+		// timers armed with time.AfterFunc (stoppable by their owner), as opposed to time.After channels
+		n := 0
+		for _, t := range g.vm.pendingTimers() {
+			if t.fn != nil {
+				n++
+			}
+		}
+		return mkInt(uint64(n))
+	})
 	V("PendingTimers", func(g *G, a []Value, pos token.Pos) Value { return mkInt(uint64(len(g.vm.pendingTimers()))) })
 	V("Now", func(g *G, a []Value, pos token.Pos) Value { return g.vm.now })
 	V("LiveGoroutines", func(g *G, a []Value, pos token.Pos) Value {
